@@ -36,6 +36,16 @@ class NoneFactory(Val):
         return None
 
 
+class FalsyVal(Val):
+    """A registered value that is false in a boolean context (an empty container, 0, ...)."""
+
+    def __bool__(self):
+        return False
+
+    def __len__(self):
+        return 0
+
+
 class RegUniverse:
     """Fresh interfaces, classes, objects and registries for one path."""
 
@@ -89,10 +99,10 @@ class RegUniverse:
     def lookup_names(self):
         return ['R0', 'R1', 'R2', 'R3', 'impl(K0)', 'impl(K1)', 'provided(K0()+R2)', 'impl(KU)']
 
-    def val(self, tag, eqid=None, none_factory=False):
-        key = (tag, eqid, none_factory)
+    def val(self, tag, eqid=None, none_factory=False, falsy=False):
+        key = (tag, eqid, none_factory, falsy)
         if key not in self.vals:
-            self.vals[key] = (NoneFactory if none_factory else Val)(tag, eqid)
+            self.vals[key] = (NoneFactory if none_factory else (FalsyVal if falsy else Val))(tag, eqid)
         return self.vals[key]
 
     def set_bases(self, i, bases):
